@@ -2652,39 +2652,53 @@ def _fmt_root_subject(E):
     return r
 
 
-def _fmt_segment_ok(E, z, seg, subj, how, in_order):
-    """one element's worth of log: exactly one advance over a slot of the subject range and the stated
-    projection(s) of exactly that slot handed to the formatter, once each -> (ok, why)"""
-    mid, f0, b0 = subj
-    advs = [e for e in seg if e[0] == 'adv' and e[1] == mid]
+def _fmt_args_of(seg):
     args_ = [e[1] for e in seg if e[0] == 'fmtarg']
     # (a direct call `Display::fmt(k, f)` / `k.fmt(f)` of the element's own formatting code)
     args_ += [e[2][0] for e in seg if e[0] == 'user' and isinstance(e[1], str) and e[1].startswith('core::fmt::')
               and e[1].endswith('::fmt') and isinstance(e[2], tuple) and e[2]]
-    if len(advs) != 1:
-        return False, 'the cursor over the shown entries must advance over exactly one element per rendered entry (%d advances)' % len(advs)
-    idx = advs[0][2]
-    if in_order and len(advs[0]) > 3 and advs[0][3] == 'back':
-        return False, 'the entries must be rendered in iteration order (front to back)'
+    return args_
+
+
+def _slot_mentions(t, acc=None, d=0):
+    if acc is None:
+        acc = []
+    if isinstance(t, tuple) and d < 8:
+        if len(t) == 4 and t[0] in ('slot', 'pair') and isinstance(t[1], str) and isinstance(t[3], (tuple, list)):
+            acc.append((t[1], t[2], tuple(t[3])[:1]))
+        else:
+            for x in t:
+                _slot_mentions(x, acc, d + 1)
+    return acc
+
+
+def _fmt_segment_ok(E, z, seg, subj, how, in_order):
+    """one rendered entry's worth of log: everything handed to the formatter that is (part of) a stored element
+    belongs to ONE slot of the subject range, and is exactly the stated projection(s) of it, once each -> (ok, why)"""
+    mid, f0, b0 = subj
+    ments = []
+    for a in _fmt_args_of(seg):
+        ments += _slot_mentions(a)[:1] if not (isinstance(a, tuple) and a and a[0] == 'tuple') else _slot_mentions(a)
+    if not ments:
+        return True, None          # nothing of a stored element in this round (punctuation only)
+    if any(m[0] != mid for m in ments):
+        return False, 'an element of another container is handed to the formatter'
+    idx = ments[0][1]
+    if not all(z.entails_eq(m[1], idx) for m in ments):
+        return False, 'parts of different elements are rendered as one entry'
     if not (z.entails_le(f0, idx) and z.entails_lt(idx, b0)):
         return False, 'the rendered slot %s is not proved to lie inside the not-yet-yielded range [%s,%s)' % (idx, f0, b0)
     subs = FMT_SUBS[how]
-    want = [('slot', mid, idx, sub) for sub in subs]
-    got = []
-    for a in args_:
-        hit = [w for w in want if mentions_z(z, a, w) or mentions_z(z, a, ('pair',) + w[1:])]
-        other = [sub for sub in ((0,), (1,)) if sub not in subs
-                 and (mentions_z(z, a, ('slot', mid, idx, sub)) or mentions_z(z, a, ('pair', mid, idx, sub)))]
-        if other:
-            return False, 'the %s of the entry is rendered where only its %s belongs' % ('value' if other[0] == (1,) else 'key', how)
-        if not hit:
-            return False, 'something that is not the %s of the entry just passed over is handed to the formatter: %r' % (how, a)
-        got += hit
-    for w in want:
-        if got.count(w) != 1:
-            return False, 'the %s of the entry must be handed to the formatter exactly once (seen %d times)' % (
-                'key' if w[3] == (0,) else 'value', got.count(w))
-    if how == 'pair' and len(want) == 2 and got and got[0] != want[0]:
+    got = [m[2] for m in ments]
+    for sub in ((0,), (1,)):
+        if sub in subs and got.count(sub) != 1:
+            return False, 'the %s of the entry must be handed to the formatter exactly once per entry (seen %d times)' % (
+                'key' if sub == (0,) else 'value', got.count(sub))
+        if sub not in subs and got.count(sub):
+            return False, 'the %s of the entry is rendered where only its %s belongs' % ('key' if sub == (0,) else 'value', how)
+    if [g for g in got if g not in ((0,), (1,))]:
+        return False, 'a whole pair is handed to the formatter where its %s belongs' % how
+    if how == 'pair' and got and got[0] != (0,):
         return False, 'the key must be rendered before the value'
     return True, None
 
@@ -2695,14 +2709,14 @@ def fmt_iteration(how, in_order):
             subj = _fmt_root_subject(E)
             if subj is None:
                 return
-            if not [e for e in seg if e[0] == 'fmtarg' or (e[0] == 'adv' and e[1] == subj[0])
-                    or (e[0] == 'user' and isinstance(e[1], str) and e[1].startswith('core::fmt::') and e[1].endswith('::fmt'))]:
+            if not _fmt_args_of(seg):
                 return
             it = Iteration(E, st, seg)
             E.iter_classes['rendered'] += 1
             ok, why = _fmt_segment_ok(E, st.zone, seg, subj, how, in_order)
             it_req(E, props, 'LISTING', ok, body.name + ':entry',
-                   'each rendered entry must be the %s of the one element the cursor passed over in this round (%s)' % (how, why), it)
+                   'what one round of the rendering loop hands to the formatter must be the %s of one element of the '
+                   'range still to be shown (%s)' % (how, why), it)
         return hook
     return mk
 
@@ -2712,42 +2726,55 @@ def h_fmt_listing(how, in_order):
         nm = ctx.body.name
         E, z, st = p.E, p.z, p.st
         ent = getattr(E, 'root_entry', None)
-        subj = _fmt_subject(E, p.st0 if getattr(p, 'st0', None) is not None else ent[1], p.args0[0]) if p.args0 else None
+        subj = _fmt_subject(E, ent[1], p.args0[0]) if (p.args0 and ent) else None
         if subj is None:
             ctx.req('LISTING', False, nm, 'cannot find what the receiver still has to show (one cursor or one container)', p)
             return
         mid, f0, b0 = subj
         ms = st.maps[mid]
         # a formatter error ends the rendering early: only complete renderings are judged for completeness
-        early = [e for e in p.events if e[0] == 'errprop']
+        early = [e for e in p.events if e[0] == 'errprop'] or \
+            (isinstance(p.val, tuple) and p.val and p.val[0] == 'adt' and p.val[1] == RESULT and p.val[2] == 1)
         ctx.classes['rendered-all' if not early else 'error'] += 1
         quiet = not [e for e in p.events if e[0] in ('read', 'write', 'len', 'store') and e[1] == mid] \
             and not ms.contents and not ms.holes and not ms.extras
         ctx.req('LISTING', quiet, nm, 'formatting must not change the container', p)
-        v1 = final_self(p)
-        same = v1 == p.self0 or (cursor_of(E, v1) is not None and cursor_of(E, p.self0) is not None
-                                 and all(z.entails_eq(a, b) for a, b in zip(cursor_of(E, v1)[1:3], cursor_of(E, p.self0)[1:3])))
         shared = bool(p.args0) and p.args0[0][0] == 'ref' and not p.args0[0][1]
-        ctx.req('LISTING', shared or same, nm, 'formatting must not advance or change the iterator itself', p)
+        if not shared:
+            v1 = final_self(p)
+            ctx.req('LISTING', val_eq_z(z, v1, p.self0), nm, 'formatting must not advance or change the iterator itself', p)
         # the part of the log in front of the first loop (an element rendered before the loop, as Display does)
         first = next((i for i, e in enumerate(p.events) if e[0] == 'loop'), len(p.events))
         head = p.events[:first]
-        if [e for e in head if e[0] == 'fmtarg' or (e[0] == 'adv' and e[1] == mid)] and not early:
+        if _fmt_args_of(head):
             ok, why = _fmt_segment_ok(E, z, head, subj, how, in_order)
-            ctx.req('LISTING', ok, nm + ':first', 'the entry rendered in front of the loop must be the %s of the first '
-                    'not-yet-yielded element (%s)' % (how, why), p)
+            ctx.req('LISTING', ok, nm + ':first', 'what is handed to the formatter in front of the loop must be the %s of '
+                    'one element of the range still to be shown (%s)' % (how, why), p)
         if early:
             return
-        g = st.ghost.get(('adv', mid))
-        n = g[0] if g else 0
+        g0, g1 = st.ghost.get(('span0', mid)), st.ghost.get(('span1', mid))
+        bad = ('spanbad', mid) in st.ghost
+        down = ('spandown', mid) in st.ghost
+        seen = 'none' if g1 is None or g0 is None else '[%s,%s)%s' % (g0[0], g1[0], ' (not one contiguous run)' if bad else '')
         if z.entails_le(b0, f0):
-            ok = (isinstance(n, int) and n == 0) or z.entails_eq(n, 0)
+            ok = g1 is None and not bad
         else:
-            ok = z.entails_eq(f0, 0) and z.entails_eq(n, b0)
-            if not ok:
-                ok = z.entails_eq(slots.plus(st.fork(), f0, 0), f0) and z.entails_eq(n, b0) and z.entails_eq(f0, 0)
-        ctx.req('LISTING', ok, nm, 'exactly the not-yet-yielded entries [%s,%s) must be rendered, each once (entries passed '
-                'over by the rendering cursor: %s)' % (f0, b0, n), p)
+            ok = g0 is not None and g1 is not None and not bad and z.entails_eq(g0[0], f0) and z.entails_eq(g1[0], b0)
+        ctx.req('LISTING', ok, nm, 'exactly the entries still to be shown, slots [%s,%s), must be rendered (slots whose '
+                'element reached the formatter: %s)' % (f0, b0, seen), p)
+        if in_order:
+            ctx.req('LISTING', not down, nm, 'the entries of a Map / Set must be rendered in iteration order (front to back)', p)
+        if g1 is None or not ok:
+            return
+        ln = st.ghost.get(('spanlen', mid))
+        for sub in ((0,), (1,)):
+            n = st.ghost.get(('fmtn', mid, sub))
+            if sub in FMT_SUBS[how]:
+                good = n is not None and ln is not None and z.entails_eq(n[0], ln[0])
+                ctx.req('LISTING', good, nm, 'the %s of every entry must be rendered exactly once (rendered %s times for %s entries)'
+                        % ('key' if sub == (0,) else 'value', n[0] if n else 0, ln[0] if ln else 0), p)
+            else:
+                ctx.req('LISTING', n is None, nm, 'the %s of the entries must not be rendered here' % ('key' if sub == (0,) else 'value'), p)
     return h
 
 
